@@ -87,6 +87,15 @@ def cases(tier, seed):
                     out.append({"n": 2, "vk": vk, "rows": [list(r) for r in rows], "obj": "qfull", "fmt": FMTS[idx % 4], "si": si,
                                 "pp": {"validate_input": False}, "lat": [1, 2] if tier == "quick" else [0, 1, 2, 3]})
                     idx += 1
+    # variable bounds handed over as integer-typed arrays
+    for vk in (["intbox", "intbox"], ["intbox"]):
+        for rows in ([], [("affine", "ranged")], [("sphere", "upper"), ("affine", "eqoff")]):
+            if len(vk) == 1:
+                rows = [(("sphere" if f == "sphere" else "affine"), k) for f, k in rows]
+            for si in range(7):
+                out.append({"n": len(vk), "vk": vk, "rows": [list(r) for r in rows], "obj": "cubic", "fmt": FMTS[idx % 4], "si": si,
+                            "lat": [1, 2] if tier == "quick" else [0, 1, 2, 3]})
+                idx += 1
     # constant integer-valued Jacobians / Hessians returned with an integer dtype
     for vk in (["free", "boxed"], ["lower", "upper"]):
         for rows in ([("affine", "eq0")], [("affine", "ranged"), ("affine", "eqoff")], [("affine", "upper")]):
